@@ -46,6 +46,9 @@ CLASSES = [('OrderedMultiDict', getattr(dictutils, 'OrderedMultiDict', None),
 FEATURE_ORDER = ['one-shot iterator argument', 'argument repeats a key', 'a repeated argument key is not yet present',
                  'argument is empty', 'key absent', 'key present', 'key has several values',
                  'state has a repeated key', 'state contains the pair (None, None)', 'non-empty state', 'empty state']
+STATE_FEATS = set(FEATURE_ORDER[-4:])
+DERIVED = {'__ior__': 'update', 'update': '__setitem__', 'setdefault': '__setitem__', '__setitem__': '__delitem__',
+           'pop': 'popall', 'popall': '__delitem__', 'popitem': 'pop'}
 SV = 'single_value_reads_most_recent'
 RD = 'reads_equal_pairlist'
 
@@ -215,8 +218,34 @@ class Agg:
         if rank < g['rank']:
             g.update(rank=rank, w=witness, d=detail, sn=snip)
 
+    def base_group(self, key):
+        """the statement defines |= as update, update/assignment as 'drop the key's pairs, then append', pop as
+        popall, and a default only matters for an absent key: a failure of such a derived operation is reported
+        at the operation it is defined through when that one fails under (at most) the same conditions"""
+        clause, site, form = key
+        cn, _, meth = site.rpartition('.')
+        mine = self.g[key]['feats']
+        cands = [(meth, 'key')] if form == 'key, default' else []
+        while meth in DERIVED:
+            meth = DERIVED[meth]
+            cands += [(meth, form), (meth, None)]
+        for bm, bf in cands:
+            for k2, g2 in sorted(self.g.items()):
+                if k2 != key and k2[0] == clause and k2[1] == cn + '.' + bm and (bf is None or k2[2] == bf):
+                    if (g2['feats'] if bf else g2['feats'] & STATE_FEATS) <= mine:
+                        return k2
+        return None
+
     def flush(self, H):
+        for key in sorted(self.g):
+            b = self.base_group(key)
+            if b is not None:
+                self.g[b].setdefault('via', []).append('%s (%s)' % (key[1], key[2]))
         for (clause, site, form), g in sorted(self.g.items()):
+            if self.base_group((clause, site, form)) is not None:
+                continue
+            if g.get('via'):
+                g['d'] += ' | same failure also through: ' + ', '.join(sorted(g['via']))
             wclass = form + ': ' + (', '.join(f for f in FEATURE_ORDER if f in g['feats']) or 'any state')
             H.fail(clause, site, wclass, g['w'], g['d'], g['sn'])
             H.fail_counts[(clause, site, wclass)] = g['n']
@@ -332,11 +361,12 @@ def make_ops(keys=('a', 'b', 'c'), vals=(1, 2)):
                 O('__ior__', lab, 'operator.ior(d, %s)' % src, lambda m, mform=mform, mp=mp: m.update(mform, mp),
                   arg_feats(pairs, it), rebind=True, special='ior')
     kw = [(a, 2), (c, 1)]
-    O('update', 'keyword arguments', 'd.update([], %s=2, %s=1)' % (a, c), lambda m: m.update('pairs', [], kw))
-    O('update', 'keyword arguments', 'd.update({%r: 1}, %s=2, %s=1)' % (b, a, c), lambda m: m.update('mapping', [(b, 1)], kw))
-    O('update_extend', 'keyword arguments', 'd.update_extend([], %s=2, %s=1)' % (a, c), lambda m: m.update_extend([], kw))
-    O('update_extend', 'keyword arguments', 'd.update_extend([(%r, 1)], %s=2, %s=1)' % (a, a, c),
-      lambda m: m.update_extend([(a, 1)], kw))
+    if isinstance(a, str):
+        O('update', 'keyword arguments', 'd.update([], %s=2, %s=1)' % (a, c), lambda m: m.update('pairs', [], kw))
+        O('update', 'keyword arguments', 'd.update({%r: 1}, %s=2, %s=1)' % (b, a, c), lambda m: m.update('mapping', [(b, 1)], kw))
+        O('update_extend', 'keyword arguments', 'd.update_extend([], %s=2, %s=1)' % (a, c), lambda m: m.update_extend([], kw))
+        O('update_extend', 'keyword arguments', 'd.update_extend([(%r, 1)], %s=2, %s=1)' % (a, a, c),
+          lambda m: m.update_extend([(a, 1)], kw))
     O('update', 'the OMD itself', 'd.update(d)', lambda m: m.update('pairs', list(m.p)))
     O('update_extend', 'the OMD itself', 'd.update_extend(d)', lambda m: m.update_extend(list(m.p)))
     O('__ior__', 'the OMD itself', 'operator.ior(d, d)', lambda m: m.update('pairs', list(m.p)), rebind=True, special='ior')
@@ -402,8 +432,10 @@ def build(C, seed, hist, ops):
     return d
 
 
-def explore(H, agg, cn, C, imp, ops, seeds, depth, skip, budget_frac):
-    seen = {}      # (pairs, internal state) -> reader mismatches found there (deterministic class: same state, same reads)
+def explore(H, agg, cn, C, imp, ops, seeds, depth, skip, seen):
+    """seen: (pairs, internal state) -> reader mismatches found there (deterministic class: same state, same
+    reads); shared between explorations of one class, `visited` is per exploration"""
+    visited = set()
     frontier = []
     nfp = 0
     for seed in seeds:
@@ -416,12 +448,13 @@ def explore(H, agg, cn, C, imp, ops, seeds, depth, skip, budget_frac):
                            'an iterable of pairs', state_feats(m))
             continue
         seen[(tuple(m.p), fingerprint(d))] = []
+        visited.add((tuple(m.p), fingerprint(d)))
         frontier.append((tuple(seed), (), tuple(m.p)))
     stats = []
     for lvl in range(depth):
         nxt = []
         for seed, hist, pairs in frontier:
-            if H.out_of_time(budget_frac):
+            if H.out_of_time(0.93):
                 H.note_truncated('%s: history exploration stopped by the time budget at depth %d' % (cn, lvl + 1))
                 return stats
             for oi, op in enumerate(ops):
@@ -439,12 +472,13 @@ def explore(H, agg, cn, C, imp, ops, seeds, depth, skip, budget_frac):
                      nontrivial=(after != pairs or len(set(k for k, _ in pairs)) < len(pairs)),
                      sample=dict(cls=cn, state=list(pairs), op=op.src))
                 mism = seen.get(key)
-                new = mism is None
-                if not new and fp is not None and not mism and rdet is None:
+                new = key not in visited
+                visited.add(key)
+                if mism is not None and fp is not None and not mism and rdet is None and not new:
                     continue
                 steps = [(ops[i].src, ops[i].rebind) for i in hist] + [(op.src, op.rebind)]
                 bld = 'd = C(%r)' % (list(seed),)
-                if new or fp is None:   # without the internal state every transition is read again
+                if mism is None or fp is None:   # without the internal state every transition is read again
                     mism = seen[key] = read_all(C, cn, d, m, skip)
                 site = site_of(cn, op.meth)
                 if mism:
@@ -518,6 +552,7 @@ def random_part(H, agg, cn, C, imp, ops, skip, n_hist, length):
     xo = make_ops(keys=(None, 0, (1, 2)), vals=(None, 'v'))
     xo = [o for o in xo if o.meth in ('add', '__setitem__', 'pop', 'poplast', 'addlist', 'update', 'popitem')]
     pool = ops + xo + [Op('add', 'key, value', 'd.add(0, [0])', lambda m: m.add(0, [0]))]
+    pool = [o for o in pool if getattr(o, 'reader', None) not in skip]
     for i in range(n_hist):
         rng = random.Random(H.seed * 100003 + i)
         d, m, steps = C(), PairList(), []
@@ -542,13 +577,15 @@ def run():
                 rule='a case is one (class, concrete state, operation instance) or one (class, constructed pair list) '
                      'on which all readers are compared with the pair-list model; non-trivial = the state has a key '
                      'with several pairs or the operation changes the pair list',
-                bounds=dict(quick='3 classes; readers: all pair lists of length <= 4 over keys {a,b,c} x values {1,2} and '
-                                  'length <= 3 over keys {None,0,(1,2)} x values {None,"v",[0]}; histories: every one of '
-                                  '~135 operation instances from every distinct state reached in <= 2 steps (i.e. all '
-                                  'histories <= 3) from the empty OMD and 4 seed states with repeated keys',
-                            thorough='as quick with histories <= 4 (OrderedMultiDict, FastIter) / <= 3 (QueryParamDict), '
-                                     'pair lists <= 5, plus 300 random histories of length 30 per class (seeded) over an '
-                                     'alphabet that adds None/0/tuple keys and None/unhashable values'))
+                bounds=dict(quick='3 classes; readers (~45 per state, incl. 16 ==/!= probes, 4 copy forms, pickle protocols 0/1/2/5) on all '
+                                  'pair lists of length <= 3 over keys {a,b,c} x values {1,2} and of length <= 2 over keys {None,0,(1,2)} x '
+                                  'values {None,"v",[0]}; 24 constructor forms; histories: every one of 135 operation instances (all public '
+                                  'mutators x argument forms dict / OMD / list / one-shot iterator / kwargs / the OMD itself, copies) from '
+                                  'every distinct concrete state reached within 2 steps of the empty OMD (all histories <= 3) and within 1 '
+                                  'step of 4 seed states with repeated keys (<= 2); QueryParamDict <= 2 / <= 2',
+                            thorough='pair lists <= 5 (exotic <= 3); histories <= 4 from empty and <= 3 from the seeds (QueryParamDict 3 / 2); '
+                                     'plus 300 seeded random histories of length 30 per class over an alphabet that adds None/0/tuple keys '
+                                     'and None/unhashable values'))
     agg = Agg()
     ops = make_ops()
     seeds = [[], [('a', 1), ('b', 1), ('a', 2)], [('a', 1), ('a', 1), ('b', 2), ('c', 1), ('b', 1)],
@@ -558,14 +595,15 @@ def run():
         if C is None:
             H.fail(RD, cn, 'class missing', cn, 'class not importable', None)
             continue
-        skip = readers_part(H, agg, cn, C, imp, 'abc', (1, 2), 5 if H.thorough else 4, 'readers')
-        skip |= readers_part(H, agg, cn, C, imp, (None, 0, (1, 2)), (None, 'v', [0]), 3, 'exotic')
+        skip = readers_part(H, agg, cn, C, imp, 'abc', (1, 2), 5 if H.thorough else 3, 'readers')
+        skip |= readers_part(H, agg, cn, C, imp, (None, 0, (1, 2)), (None, 'v', [0]), 3 if H.thorough else 2, 'exotic')
         if only in (None, 'ctor'):
             ctor_part(H, agg, cn, C, imp, skip)
         if only in (None, 'hist'):
-            depth = (4 if ci < 2 else 3) if H.thorough else 3
-            stats = explore(H, agg, cn, C, imp, ops, seeds, depth, skip, (0.30, 0.60, 0.85)[ci])
-            H.parts['%s new states per depth' % cn] = stats
+            d0, d1 = ((4, 3) if ci < 2 else (3, 2)) if H.thorough else ((3, 2) if ci < 2 else (2, 2))
+            seen = {}
+            H.parts['%s: new states per depth from empty' % cn] = explore(H, agg, cn, C, imp, ops, seeds[:1], d0, skip, seen)
+            H.parts['%s: new states per depth from seeds' % cn] = explore(H, agg, cn, C, imp, ops, seeds[1:], d1, skip, seen)
         if H.thorough and only in (None, 'random'):
             random_part(H, agg, cn, C, imp, ops, skip, 300, 30)
     agg.flush(H)
